@@ -244,10 +244,13 @@ func confirmAndShrink(sc scen.Scenario, c workerCfg, ui int, useed uint64, force
 	if c.Tier == "thorough" {
 		budget = 1500
 	}
+	if sb := sc.Info().ShrinkBudget; sb > 0 {
+		budget = sb
+	}
 	if !shrink {
 		budget = 0 // many classes at once: only the first few per worker are minimised
 	}
-	deadline := time.Now().Add(60 * time.Second)
+	deadline := time.Now().Add(90 * time.Second)
 	minTape, tries := sim.Shrink(rec, func(cand []sim.Entry) ([]sim.Entry, bool) {
 		if time.Now().After(deadline) {
 			return nil, false
